@@ -200,7 +200,7 @@ func runPrec(r *core.Run) {
 			}
 			r.Check(ok, key+" restricts its left operand", pos, "", fmt.Sprintf("left operand must satisfy precLeft >= %s (found tests < %v, != %v): forbidden combinations (-a**b, a||b??c, assignment to a binary expression) would be accepted", spec.minL, uniq(f.minL), uniq(f.neqL)))
 		}
-		}
+	}
 	covered := map[string]bool{}
 	arms := 0
 	for _, c := range sw.Body.List {
